@@ -269,6 +269,13 @@ pub fn run(rep: &'static Report) {
             println!("  {} [{}] P≤{}: {} schedules, {} quiescent states, {} schedules end wrong", c.sc.name, pname, bound, stats.schedules, q.len(), w);
         }
     }
+    // eviction round ∥ didChange: the safety-net eviction (more than 2000 cached texts) may only drop
+    // text that equals the file on disk; a change notification that arrives while a round is under way
+    // must not lose its text to it
+    let ev = eviction_race(rep, thorough);
+    total_sched += ev["schedules"].as_u64().unwrap_or(0);
+    total_points += ev["scheduling_points"].as_u64().unwrap_or(0);
+    rep.set("eviction_round_vs_change_notification", ev);
     // sequential layer on real trees: the notification lands before the whole scan or after it
     // (the two end points of "whatever the relative timing"), for every role a file can play in a
     // workspace that is itself an installed (editable) pytest plugin
@@ -323,6 +330,81 @@ pub fn run(rep: &'static Report) {
     rep.sample(describe(&cs[1].sc));
     rep.set("rule", "F ∈ {test file, conftest.py} × {buffer == disk, buffer != disk, didOpen followed by didChange, didClose followed by didOpen} (thorough: plus a second scan worker on a file sharing names): EVERY schedule with ≤P preemptions of the scan worker's analyze_file_fresh(F, disk) against the editor's analyze_file(F, buffer) calls, both key placements; at quiescence the whole index must equal a fresh index that analysed the editor's last content once; then, from EVERY distinct quiescent state reached, one more analyze_file(F, buffer'') must give exactly the single-analysis state of buffer''");
     rep.assume("the tokio layer is represented by model threads calling the same functions main.rs calls (did_open/did_change → analyze_file; scan phase 2 → analyze_file_fresh)");
+}
+
+/// F (conftest.py, really on disk) is open with the on-disk text — evictable; the cache holds 2000
+/// texts; one more analysis starts an eviction round while the editor sends didChange(F, buffer');
+/// afterwards the scan worker visits F. Every schedule (≤ P preemptions) must end with the buffer's
+/// text cached for F and the index describing the buffer.
+fn eviction_race(rep: &'static Report, thorough: bool) -> Value {
+    let scratch = crate::e5::Scratch::new("c10ev");
+    crate::e5::write_file(scratch.path(), "ws/conftest.py", C_DISK);
+    let f = scratch.path().join("ws/conftest.py");
+    let op = |desc: &str, g: Arc<dyn Fn(&Arc<FixtureDatabase>) + Send + Sync>| Op { desc: desc.to_string(), f: g };
+    let (f1, f2, f3) = (f.clone(), f.clone(), f.clone());
+    let sc = Scenario {
+        name: "conftest.py open (== disk), 2000 cached texts: [analysis that starts an eviction round ; scan worker visits conftest.py] ∥ didChange(conftest.py, buffer')".into(),
+        pre: vec![
+            op("didOpen: analyze_file(conftest.py, <text on disk>)", Arc::new(move |db| db.analyze_file(f1.clone(), C_DISK))),
+            op("1999 further cached texts of open documents (inserted into file_cache directly; none of them is on disk)", Arc::new(|db| {
+                for i in 0..1999 {
+                    db.file_cache.insert(std::path::PathBuf::from(format!("/nonexistent/open/doc{}.py", i)), Arc::new("x = 1\n".to_string()));
+                }
+            })),
+        ],
+        threads: vec![
+            vec![
+                op("analyze_file(/nonexistent/open/one_more.py) — the 2001st text: eviction round", Arc::new(|db| db.analyze_file(std::path::PathBuf::from("/nonexistent/open/one_more.py"), "x = 1\n"))),
+                op("scan-worker analyze_file_fresh(conftest.py, <text on disk>)", Arc::new(move |db| db.verif_analyze_file_fresh(f2.clone(), C_DISK))),
+            ],
+            vec![op("didChange: analyze_file(conftest.py, buffer')", Arc::new(move |db| db.analyze_file(f3.clone(), C_BUF)))],
+        ],
+    };
+    let want_defs: Vec<String> = {
+        let db = FixtureDatabase::new();
+        db.analyze_file(f.clone(), C_BUF);
+        let mut v: Vec<String> = db.definitions.iter().flat_map(|e| e.value().iter().map(|d| format!("{}@{}", d.name, d.line)).collect::<Vec<_>>()).collect();
+        v.sort();
+        v
+    };
+    let bound = if thorough { 3 } else { 2 };
+    let mut out = Vec::new();
+    let (mut schedules, mut points) = (0u64, 0u64);
+    for (collide, pname) in [(true, "Collide"), (false, "Split")] {
+        set_placement(collide);
+        let wrong = Mutex::new(0u64);
+        let f = f.clone();
+        let stats = explore_scenario(rep, &sc, pname, bound, 3_000_000, &|r, choices| {
+            let case = || json!({"scenario": describe(&sc), "placement": pname, "choices": choices, "trace": vsched::trace_to_strings(&r.outcome)});
+            if !r.outcome.panics.is_empty() {
+                rep.violation("panic during eviction ∥ edit", &format!("{:?}", r.outcome.panics), case);
+            }
+            if let Some(a) = &r.outcome.abort {
+                if !matches!(a, vsched::Abort::Divergence(_) | vsched::Abort::Unmodelled(_)) {
+                    rep.violation("deadlock or horizon overrun during eviction ∥ edit", &format!("{:?}", a), case);
+                }
+                return;
+            }
+            let Some(db) = &r.db else { return };
+            let text = db.file_cache.get(&f).map(|t| t.to_string());
+            let mut defs: Vec<String> = db.definitions.iter().flat_map(|e| e.value().iter().filter(|d| d.file_path == f).map(|d| format!("{}@{}", d.name, d.line)).collect::<Vec<_>>()).collect();
+            defs.sort();
+            if text.as_deref() != Some(C_BUF) || defs != want_defs {
+                *wrong.lock().unwrap() += 1;
+                let fp = format!("an eviction round under way drops the text of a change notification{}", if defs != want_defs { "; the scan then indexes the on-disk content" } else { "" });
+                if !rep.count_if_seen(&fp) {
+                    rep.violation(&fp, &format!("[{}] cached text of conftest.py: {}; definitions in it {:?}, the buffer defines {:?}", pname,
+                        match &text { None => "none".to_string(), Some(t) if t == C_DISK => "the on-disk text".to_string(), Some(t) if t == C_BUF => "the buffer".to_string(), Some(_) => "something else".to_string() }, defs, want_defs), case);
+                }
+            }
+        });
+        schedules += stats.schedules;
+        points += stats.points;
+        let w = *wrong.lock().unwrap();
+        println!("  eviction round ∥ didChange [{}] P≤{}: {} schedules, {} end wrong", pname, bound, stats.schedules, w);
+        out.push(json!({"placement": pname, "preemption_bound_completed": bound, "schedules": stats.schedules, "scheduling_points": stats.points, "schedules_ending_wrong": w}));
+    }
+    json!({"scenario": sc.name, "schedules": schedules, "scheduling_points": points, "per_placement": out})
 }
 
 fn plugin_ws(alt: Option<(&str, u8)>) -> crate::ws::Ws {
